@@ -26,6 +26,8 @@ pub enum Cost {
     Typed(Vec<(u8, u64)>),
     /// jump-heavy
     Jumps(Vec<(u8, u16)>),
+    /// doubling inside a counted loop: lengths pass 2^64 after ~60 cheap iterations
+    LoopDoubling { vector: bool, iters: u16, consumer: u8 },
 }
 
 pub fn build(c: &Cost) -> Vec<ROp> {
@@ -117,6 +119,34 @@ pub fn build(c: &Cost) -> Vec<ROp> {
                     }
                 },
                 _ => ops.push(ROp::BLength),
+            }
+            ops
+        }
+        Cost::LoopDoubling { vector, iters, consumer } => {
+            let mut ops = vec![];
+            if *vector {
+                ops.push(ROp::PushIC(be(7)));
+                ops.push(ROp::VEmpty);
+                ops.push(ROp::VPush);
+                ops.push(ROp::Loop(*iters, 2));
+                ops.push(ROp::Dup);
+                ops.push(ROp::VAppend);
+                ops.push(match consumer % 3 {
+                    0 => ROp::VLength,
+                    1 => ROp::TypeQ,
+                    _ => ROp::Dup,
+                });
+            } else {
+                ops.push(ROp::PushB(vec![0xcd; 1 + (*consumer as usize % 40)]));
+                ops.push(ROp::Loop(*iters, 2));
+                ops.push(ROp::Dup);
+                ops.push(ROp::BAppend);
+                ops.push(match consumer % 4 {
+                    0 => ROp::BLength,
+                    1 => ROp::BtoI,
+                    2 => ROp::Hash(64),
+                    _ => ROp::TypeQ,
+                });
             }
             ops
         }
@@ -272,6 +302,8 @@ pub fn arb_cost(thorough: bool) -> impl Strategy<Value = Cost> {
             .prop_map(|(vector, k, consumer, arg)| Cost::Doubling { vector, k, consumer, arg }),
         3 => crate::vmgen::choices(60).prop_map(Cost::Typed),
         1 => proptest::collection::vec((any::<u8>(), any::<u16>()), 1..40).prop_map(Cost::Jumps),
+        1 => (any::<bool>(), prop_oneof![Just(1u16), Just(30), 55u16..70, Just(200), Just(5000), Just(65535)], any::<u8>())
+            .prop_map(|(vector, iters, consumer)| Cost::LoopDoubling { vector, iters, consumer }),
     ]
 }
 
@@ -291,7 +323,7 @@ pub fn run(ctx: &Ctx) -> (Outcome, String, Option<bool>) {
             r
         },
     );
-    let rule = format!("Generated: nested loops up to syntactic depth {} with iteration counts 0/1/2/3/65535/random and body lengths that overrun the program or the enclosing loop; doubling prefixes (dup;bappend / dup;vappend, k up to {}) followed by every consuming opcode; type-aware random programs; jump-heavy code. Oracle (deterministic counters only): (1) the real interpreter, stepped one instruction at a time through the cfg(melstf_verif) re-export, never executes more instructions than Covenant::weight() (runs with weight > {} are excluded and counted); (2) weight() equals the specification formula and needs <= 8n^2+64 weigh steps (thread-local counter hook); (3) peak heap bytes of weight()+execution <= 4 MiB + 16 KiB*(covenant bytes + weight) (one pushed value costs up to ~4.2 KiB in the persistent-vector representation, measured), measured by a counting allocator. Non-trivial = program contains a loop or a doubling prefix; distinct by bytecode.", NEST_CAP, if thorough {26} else {22}, STEP_CAP);
+    let rule = format!("Generated: nested loops up to syntactic depth {} with iteration counts 0/1/2/3/65535/random and body lengths that overrun the program or the enclosing loop; doubling prefixes (dup;bappend / dup;vappend, k up to {}) followed by every consuming opcode; type-aware random programs; jump-heavy code; doubling inside counted loops of 1 to 65535 iterations (lengths pass 2^64 after ~60). Oracle (deterministic counters only): (1) the real interpreter, stepped one instruction at a time through the cfg(melstf_verif) re-export, never executes more instructions than Covenant::weight() (runs with weight > {} are excluded and counted); (2) weight() equals the specification formula and needs <= 8n^2+64 weigh steps (thread-local counter hook); (3) peak heap bytes of weight()+execution <= 4 MiB + 16 KiB*(covenant bytes + weight) (one pushed value costs up to ~4.2 KiB in the persistent-vector representation, measured), measured by a counting allocator. Non-trivial = program contains a loop or a doubling prefix; distinct by bytecode.", NEST_CAP, if thorough {26} else {22}, STEP_CAP);
     (out, rule, None)
 }
 
